@@ -30,7 +30,11 @@ RULE = ("each case: one text generated constructively from the grammar of doc/Gu
         "now/immediately, colours, MIDI, blobs (BLOB [n 0x.. …]), NxA repetitions of scalars and arrays, 'a b ... c' ranges of c/i/h/f/d, arrays "
         "with nested arrays, repetitions, ranges and open-ended ranges), rendered with 0..3 white-space / line-break / "
         "'%' comment insertions at every token boundary (comments between top-level values only); 40 % of the cases carry "
-        "a second rendering of the same choices; a case is non-trivial when the text has at least two values or one "
+        "a second rendering of the same choices; a second stream (1500 / 30000 cases) builds sentences of the Lean specification "
+        "(Pretty/C11Spec.lean: every construct incl. ranges of c/i/h/f/d, open-ended arrays, floats with exact part), renders "
+        "them in Python and sends the sentence along (sent=…): the driver decodes it and reports any difference between "
+        "what the specification says the sentence denotes and what the model scans from the text and from the "
+        "specification's own rendering; a case is non-trivial when the text has at least two values or one "
         "compound value; distinct = distinct op line")
 ASSUMPTIONS = [
     "the fix patches fixes/C11-01 … C11-05 are applied to the tree (on top of fixes/C10-*.patch): leading white space / "
@@ -68,7 +72,9 @@ TRUSTED = [
     "to-int/tolerance compare on bit patterns)",
     "libc modelled, not verified: RtoscModel/Libc/{Ctype,Printf,Float,Scanf,Time}.lean (as for C10)",
     "the specification RtoscModel/Pretty/C11Spec.lean (Sentence / render / denote) is hand-written from doc/Guide.adoc; "
-    "the Python reference reader in this module is a second, independent reading of the same manual section",
+    "the Python reference reader in this module is a second, independent reading of the same manual section; the two are "
+    "compared with each other, with the model and with the implementation on every case of the sent= stream "
+    "(Driver/ScanSentence.lean)",
     "C16's cell type, Item/flatList and comparison model RtoscModel/ArgVal/*.lean (imported)",
 ]
 LEVEL_TEXT = ("Lean theorems over an executable model of checker, scanner and printer: for sentences of ANY length whose values "
@@ -1289,6 +1295,265 @@ def hx(b):
     return b.hex() if b else "-"
 
 
+# ------------------------------------------------------------------------------------
+# second stream: sentences of the Lean specification (Pretty/C11Spec.lean), sent along with the text.
+# The driver decodes the sentence, computes what it denotes (`cells`) and compares it with what the model
+# scans from the text and from the specification's own rendering; a disagreement is appended to the model's
+# output line (` SPEC-MISMATCH …`), so it shows up as a correspondence difference.  The harness ignores `sent=`.
+# Encoding (no blanks):  items ','-separated;  V<tok>  R<n>(<item>)  G<tok>~<tok>  A<open01>(<items>)
+#   tok:  i<base><sfx01>:<int>  h<base>:<int>  f<dbl01><sfx01>:<lit>[!<hexlit>]  c<esc01>:<byte>  s<sym01>:<parts>
+#         n:<hex>  k:<T|F|N|I|n|m>  r<upper01>:<value>  m<pad01>:<a>.<b>.<c>.<d>  b:<hex|->
+#   base: d x X o c;   lit: D<neg01>.<ip>.<fp|->.<exp|->.<plus01><upper01>  |  H<neg01>.<iphex>.<fphex|->.<exp>
+#   parts: '|'-separated, each a sequence of r<hh> / e<hh> ('-' = empty part)
+# ------------------------------------------------------------------------------------
+def sp_tok_int(rng, ty):
+    lim = 31 if ty == 'i' else 63
+    v = g_int(rng, INT32_EDGE if ty == 'i' else INT64_EDGE, lim + 1)
+    base = rng.choice("ddddxxXoc" if ty == 'i' else "ddddxxXo")
+    sfx = 1 if ty == 'h' else rng.choice([0, 0, 1])
+    if base == 'c':
+        sfx = 0 if rng.random() < 0.7 else sfx
+    mag = abs(v)
+    body = {'d': "%d" % mag, 'x': "0x%x" % mag, 'X': "0x%X" % mag, 'o': "0%o" % mag, 'c': "0x%x" % (v % 2 ** 32)}[base]
+    text = ("" if v >= 0 or base == 'c' else "-") + body + ({'i': "i", 'h': "h"}[ty] if sfx else "")
+    if ty == 'i':
+        return "i%s%d:%d" % (base, sfx, v), text.encode()
+    return "h%s:%d" % (base, v), text.encode()
+
+
+def sp_digits(rng, lo, hi, hexa=False):
+    return "".join(rng.choice("0123456789abcdef" if hexa else "0123456789") for _ in range(rng.randint(lo, hi)))
+
+
+def sp_hexlit(rng, neg):
+    ip = rng.choice(["0", "1", "f", "1f", "a"])
+    fp = rng.choice([None, None, "8", "1", "99999a", "54fdf4", sp_digits(rng, 1, 6, True)])
+    ex = rng.choice([0, -1, 3, -10, -2, 10, -20, rng.randint(-30, 30)])
+    enc = "H%d.%s.%s.%d" % (neg, ip, fp if fp is not None else "-", ex)
+    text = ("-" if neg else "") + "0x" + ip + ("." + fp if fp is not None else "") + "p" + ("-%d" % -ex if ex < 0 else "+%d" % ex)
+    return enc, text
+
+
+def sp_tok_float(rng, dbl, simple=False):
+    neg = 1 if rng.random() < 0.25 else 0
+    if simple or rng.random() < 0.75:
+        ip = rng.choice(["0", "1", "2", "10", "15", "100", sp_digits(rng, 1, 6)])
+        fp = rng.choice([None, "", "0", "5", "25", "125", "333", "000061", sp_digits(rng, 1, 9)])
+        ex = None if simple or rng.random() < 0.6 else rng.randint(-12, 12)
+        plus = 1 if rng.random() < 0.3 else 0
+        upper = 1 if rng.random() < 0.3 else 0
+        if simple and fp is None:
+            fp = "0"
+        enc = "D%d.%s.%s.%s.%d%d" % (neg, ip, fp if fp not in (None, "") else ("-" if fp is None else "+"),
+                                      ex if ex is not None else "-", plus, upper)
+        text = ("-" if neg else "") + ip + ("." + fp if fp is not None else "")
+        if ex is not None:
+            text += ("E" if upper else "e") + ("-%d" % -ex if ex < 0 else ("+" if plus else "") + "%d" % ex)
+        floatish = fp is not None or ex is not None
+    else:
+        enc, text = sp_hexlit(rng, neg)
+        floatish = True
+    sfx = 1 if dbl or not floatish or rng.random() < 0.2 else 0
+    if sfx:
+        text += "d" if dbl else "f"
+    return "f%d%d:%s" % (1 if dbl else 0, sfx, enc), text.encode(), neg
+
+
+def sp_tok(rng, kind, bl):
+    """(encoding, text) of one scalar; `bl()` yields the blank for the next place inside it"""
+    if kind in "ih":
+        return sp_tok_int(rng, kind)
+    if kind in "fd":
+        enc, text, neg = sp_tok_float(rng, kind == "d")
+        if rng.random() < 0.3:
+            e2, t2 = sp_hexlit(rng, neg)
+            b0 = bl() or b" "
+            return enc + "!" + e2, text + b0 + b"(" + bl() + t2.encode() + bl() + b")"
+        return enc, text
+    if kind == "c":
+        c = rng.choice([7, 8, 9, 10, 11, 12, 13, 92, 39, 0]) if rng.random() < 0.3 else rng.choice([x for x in PRINTABLE if x not in (39, 92)])
+        if c in UNESC or c in (39, 0):
+            e = UNESC.get(c) or {39: "'", 0: "0"}[c]
+            return "c1:%d" % c, b"'\\" + e.encode() + b"'"
+        return "c0:%d" % c, b"'" + bytes([c]) + b"'"
+    if kind in "sS":
+        data = g_strbytes(rng)
+        nparts = 1 if rng.random() < 0.6 else rng.randint(2, 3)
+        cuts = sorted(rng.randint(0, len(data)) for _ in range(nparts - 1))
+        parts, lo = [], 0
+        for hi in cuts + [len(data)]:
+            parts.append(data[lo:hi])
+            lo = hi
+        encs, text = [], b""
+        for k, part in enumerate(parts):
+            e, t = "", b'"'
+            for c in part:
+                if c in UNESC or c == 34:
+                    e += "e%02x" % c
+                    t += b"\\" + (UNESC[c].encode() if c in UNESC else b'"')
+                else:
+                    e += "r%02x" % c
+                    t += bytes([c])
+            encs.append(e or "-")
+            text += t + b'"'
+            if k + 1 < len(parts):
+                text += b"\\" + bl()
+        if kind == "S":
+            text += b"S"
+        return "s%d:%s" % (1 if kind == "S" else 0, "|".join(encs)), text
+    if kind == "n":
+        w = g_ident(rng)
+        return "n:" + w.hex(), w
+    if kind == "k":
+        k = rng.choice("TFNInm")
+        return "k:" + k, {"T": b"true", "F": b"false", "N": b"nil", "I": b"inf", "n": b"now", "m": b"immediately"}[k]
+    if kind == "r":
+        v = rng.getrandbits(32)
+        up = 1 if rng.random() < 0.3 else 0
+        return "r%d:%d" % (up, v), b"#" + (("%08X" if up else "%08x") % v).encode()
+    if kind == "m":
+        by = [rng.getrandbits(8) for _ in range(4)]
+        pad = 1 if rng.random() < 0.6 else 0
+        f = "0x%02x" if pad else "0x%x"
+        text = b"MIDI" + bl() + b"[" + bl()
+        for k, x in enumerate(by):
+            text += (f % x).encode() + ((bl() or b" ") if k < 3 else bl())
+        return "m%d:%d.%d.%d.%d" % tuple([pad] + by), text + b"]"
+    data = bytes(rng.getrandbits(8) for _ in range(rng.choice([0, 1, 2, 3, 6])))
+    text = b"BLOB" + bl() + b"[" + bl() + b"%d" % len(data)
+    tail = bl()
+    for x in data:
+        text += (bl() or b" ") + b"0x%02x" % x
+    return "b:" + (data.hex() or "-"), text + tail + b"]"
+
+
+def sp_blank(rng):
+    return b"".join(rng.choice(WSCH) for _ in range(rng.choice([0, 0, 0, 1, 1, 2])))
+
+
+def sp_range(rng, stats):
+    """[optional a], b ... c as (enc, text) items; integer and float types"""
+    ty = rng.choice("iiihcffd")
+    stats["spec_range_" + ty] = stats.get("spec_range_" + ty, 0) + 1
+    with_a = rng.random() < 0.6
+    n = rng.randint(1, 6)
+    out = []
+
+    def num_tok(v):
+        if ty in "ih":
+            mag = abs(v)
+            base = rng.choice("dddx")
+            body = "%d" % mag if base == 'd' else "0x%x" % mag
+            sfx = 1 if ty == 'h' else rng.choice([0, 0, 1])
+            text = ("-" if v < 0 else "") + body + (ty if sfx else "")
+            return ("i%s%d:%d" % (base, sfx, v) if ty == 'i' else "h%s:%d" % (base, v)), text.encode()
+        if ty == "c":
+            return "c0:%d" % v, b"'" + bytes([v]) + b"'"
+        # floats: v is a multiple of 1/1000
+        neg = 1 if v < 0 else 0
+        ip, fp = divmod(abs(v), 1000)
+        fps = ("%03d" % fp).rstrip("0") or "0"
+        sfx = 1 if ty == 'd' else 0
+        return "f%d%d:D%d.%d.%s.-.00" % (1 if ty == 'd' else 0, sfx, neg, ip, fps), (("-" if neg else "") + "%d.%s" % (ip, fps) + ("d" if sfx else "")).encode()
+    if ty in "ih":
+        d = rng.choice([1, -1, 2, -2, 3, 5, 10, -7, 100]) if with_a else rng.choice([1, -1])
+        b = rng.randint(-1000, 1000)
+    elif ty == "c":
+        d = rng.choice([1, -1, 2, 3]) if with_a else rng.choice([1, -1])
+        b = rng.randint(60, 90)
+        if 92 in (b - d, b, b + n * d):
+            b += 8
+    else:
+        d = rng.choice([1000, -1000]) if not with_a else rng.choice([1, 2, 5, 25, 125, 333, 1000, 1500, -500, -100, 3330, 10])
+        b = rng.randint(-5000, 5000)
+    c = b + n * d
+    if ty in "fd" and rng.random() < 0.4:
+        c += rng.randint(-8, 8) // 10 * 1   # exact or off by a little; float off-grid ends only with big steps
+    if with_a:
+        out.append(("V" + num_tok(b - d)[0], num_tok(b - d)[1]))
+    eb, tb = num_tok(b)
+    ec, tc = num_tok(c)
+    mid = (b" " if tb.endswith(b".") else b"") + sp_blank(rng) + b"..." + sp_blank(rng)
+    out.append(("G" + eb + "~" + ec, tb + mid + tc))
+    return out
+
+
+def sp_array(rng, stats, depth):
+    stats["spec_array"] = stats.get("spec_array", 0) + 1
+    n = rng.choice([0, 1, 2, 2, 3, 4])
+    elems = []
+    r = rng.random()
+    opn = 0
+    if r < 0.3 and n:
+        for _ in range(rng.randint(0, 1)):
+            pass
+        rg = sp_range(rng, stats)
+        elems = rg
+        if rng.random() < 0.5:
+            # open end: b ... ]   (drop c)
+            enc, text = rg[-1]
+            eb = enc[1:].split("~")[0]
+            tb = text.split(b"...")[0].rstrip(WS)
+            elems = rg[:-1] + [("V" + eb, tb)]
+            opn = 1
+    elif r < 0.4 and depth < 1 and n:
+        elems = [sp_array(rng, stats, depth + 1) for _ in range(min(n, 3))]
+        opn = 1 if rng.random() < 0.2 else 0
+    else:
+        kind = rng.choice("iihfdcsSnktrmb")
+        for _ in range(n):
+            e, t = sp_tok(rng, kind, lambda: sp_blank(rng))
+            if rng.random() < 0.15:
+                m = rng.choice([1, 2, 3, 5, 10, 1000])
+                elems.append(("R%d(V%s)" % (m, e), b"%dx" % m + t))
+            else:
+                elems.append(("V" + e, t))
+        if n and kind in "sSnktrmbi" and rng.random() < 0.25 and elems[-1][0][0] == "V":
+            opn = 1
+    text = b"[" + sp_blank(rng)
+    for k, (e, t) in enumerate(elems):
+        text += t
+        if k + 1 < len(elems):
+            text += sp_blank(rng) or b" "
+    if opn:
+        text += (b" " if text.endswith(b".") else b"") + sp_blank(rng) + b"..."
+    text += sp_blank(rng) + b"]"
+    return "A%d(%s)" % (opn, ",".join(e for e, _ in elems)), text
+
+
+def g_spec_case(rng, stats):
+    """one sentence of the specification: (encoding, text)"""
+    n = rng.choice([0, 1, 1, 2, 2, 3, 3, 4, 5, 6, 8])
+    items = []
+    while len(items) < n:
+        r = rng.random()
+        if r < 0.6:
+            kind = rng.choice("iiiihhfffddccsssSSnnkkrmb")
+            e, t = sp_tok(rng, kind, lambda: sp_blank(rng))
+            items.append(("V" + e, t))
+        elif r < 0.7:
+            m = rng.choice([1, 2, 3, 4, 5, 7, 10, 99, 1000, 2 ** 31 - 1])
+            if rng.random() < 0.3:
+                e, t = sp_array(rng, stats, 1)
+                items.append(("R%d(%s)" % (m, e), b"%dx" % m + t))
+            else:
+                e, t = sp_tok(rng, rng.choice("ihfdcsSnkrmb"), lambda: sp_blank(rng))
+                items.append(("R%d(V%s)" % (m, e), b"%dx" % m + t))
+        elif r < 0.85:
+            items += sp_range(rng, stats)
+        else:
+            items.append(sp_array(rng, stats, 0))
+    text = g_ins(rng, True, stats)
+    for k, (e, t) in enumerate(items):
+        text += t
+        if k + 1 < len(items):
+            text += rng.choice(WSCH[:6]) + g_ins(rng, True, stats)
+    tail = g_ins(rng, True, stats)
+    if tail[:1] == b"%":
+        tail = b" " + tail
+    return ",".join(e for e, _ in items) or "-", text + tail
+
+
 def generate(rng, tier, stats):
     n = 6000 if tier == "quick" else 120000
     stats["generated"] = n
@@ -1317,3 +1582,12 @@ def generate(rng, tier, stats):
                 op += " alt=" + hx(alt)
                 stats["pairs"] = stats.get("pairs", 0) + 1
         yield op
+    # the stream that ties the Lean specification to model and implementation
+    m = 1500 if tier == "quick" else 30000
+    for _ in range(m):
+        enc, text = g_spec_case(rng, stats)
+        if b"\0" in text or read_text(text) is None:
+            stats["spec_not_a_sentence"] = stats.get("spec_not_a_sentence", 0) + 1
+            continue
+        stats["spec_sentences"] = stats.get("spec_sentences", 0) + 1
+        yield hx(text) + " sent=" + enc
